@@ -99,6 +99,14 @@ theorem overwrite_adds_exactly_one_backup (d : Dir) (name old new : List UInt8) 
       · exact absurd h hm
       · exact h
 
+/-- Consecutive numbering: after a numbered overwrite took backup N, the next overwrite of that name will take
+N+1 (so a history of k numbered overwrites of one name leaves exactly k new backups, numbered consecutively
+after the largest one present at the start). -/
+theorem next_number_is_consecutive (d : Dir) (name old new : List UInt8) (N : Nat)
+    (hold : d.get name = some old) (hN : nextBackupNum d.names name = some N) (hlt : N + 1 < 2^64) :
+    nextBackupNum (copyOnce d (.numbered, name, new)).names name = some (N + 1) :=
+  nextBackupNum_after_overwrite d name old new N hold hN hlt
+
 /-- Mode `none` never takes a backup: only the target changes, whatever backups exist. -/
 theorem none_mode_touches_only_target (d : Dir) (name new : List UInt8) (k : Name) :
     (copyOnce d (.none, name, new)).get k = if k = name then some new else d.get k :=
